@@ -33,6 +33,13 @@ var requiredSlots = []string{
 	"BoolExpressionAttribute.Expression", "SpreadAttributes.Expression", "ConditionalAttribute.Expression",
 	"TemplElementExpression.Expression", "TemplElementExpression[block].Expression", "CallTemplateExpression.Expression",
 	"GoCode.Expression", "ScriptGoCode.Expression", "CSSValue.Expression",
+	// attributes of <script> and raw (<style>) elements take other generator paths
+	"ExpressionAttribute[other]@script.Expression", "ExpressionAttribute[class]@script.Expression", "ExpressionAttribute[style]@script.Expression",
+	"ExpressionAttribute[href]@script.Expression", "ExpressionAttribute[on*]@script.Expression", "BoolExpressionAttribute@script.Expression",
+	"SpreadAttributes@script.Expression", "ConditionalAttribute@script.Expression",
+	"ExpressionAttribute[other]@raw.Expression", "ExpressionAttribute[class]@raw.Expression", "ExpressionAttribute[style]@raw.Expression",
+	"ExpressionAttribute[href]@raw.Expression", "ExpressionAttribute[on*]@raw.Expression", "BoolExpressionAttribute@raw.Expression",
+	"SpreadAttributes@raw.Expression", "ConditionalAttribute@raw.Expression",
 }
 
 // fixed programs: hand-written layouts that the random generator reaches
@@ -46,6 +53,9 @@ var fixed = []Case{
 	{"fixed/crlf", "package x\r\n\r\ntempl x(s string) {\r\n\t<p>{ f(\r\n\t\ts,\r\n\t) }</p>\r\n}\r\n"},
 	{"fixed/go-blocks", "//go:build x\n\n// Cömment\npackage x\n\nimport \"fmt\"\n\nvar ü = \"é\"\n\ntempl x() {\n\t{ ü }\n}\n\nfunc f() string {\n\treturn \"世\"\n}\n\n// trailing\n"},
 	{"fixed/css-script", "package x\n\ncss c(é string) {\n\tcolor: { é };\n\tmargin: 0;\n}\n\nscript s(a string, b int) {\n\tconsole.log(a, b);\n}\n\ntempl x() {\n\t<div class={ c(\"ü\") } onclick={ s(\"é\", 1) }>x</div>\n\t<script>\n\t\tconst v = {{ \"é\" }}; const w = \"{{ f() }}\";\n\t</script>\n}\n"},
+	{"fixed/script-attrs", "package x\n\ntempl x(s string) {\n\t<script class={ \"é\", s } style={ s } src={ f(\n\t\ts,\n\t) } onload={ h(s) } async?={ b } { attrs... }\n\t\tif s != \"\" {\n\t\t\tclass={ s }\n\t\t\tdata-x={ s }\n\t\t} else {\n\t\t\tid={ \"ü\" + s }\n\t\t}\n\t>\n\t\tconst v = {{ s }};\n\t</script>\n}\n"},
+	{"fixed/style-attrs", "package x\n\ntempl x(s string) {\n\t<style class={ \"é\", s } style={ s } href={ f(\n\t\ts,\n\t) } onload={ h(s) } disabled?={ b } { attrs... }\n\t\tif s != \"\" {\n\t\t\tclass={ s }\n\t\t\tdata-x={ s }\n\t\t} else {\n\t\t\tid={ \"ü\" + s }\n\t\t}\n\t>\n\t\tp { color: red; }\n\t</style>\n}\n"},
+	{"fixed/void-attrs", "package x\n\ntempl x(s string) {\n\t<input class={ \"é\", s } style={ s } value={ f(\n\t\ts,\n\t) } onchange={ h(s) } checked?={ b } { attrs... }\n\t\tif s != \"\" {\n\t\t\tclass={ s }\n\t\t} else {\n\t\t\tid={ \"ü\" + s }\n\t\t}\n\t/>\n\t<div class={ s } { attrs... }/>\n\t<br class={ s }>\n}\n"},
 	{"fixed/same-line-templates", "package x\n\ntempl a() {<p>a</p>}templ b() {<p>b</p>}\n"},
 }
 
